@@ -1,4 +1,5 @@
 import O2P.Props.C01
+import O2P.Lemmas.ParseRender
 /-!
 # C05 — emitted PlantUML is well-formed and names exactly the observed events (partial)
 The parser *is* the grammar of the dialect.  `parse_ok_core`/`parse_ok_tail`: a text `parse` accepts was
@@ -22,6 +23,20 @@ theorem parse_ok_core (text : String) (d : Blk) (h : parse text = .ok d) : parse
     · have : d' = d := by injection h
       rw [← this]; exact hc
     · exact absurd h (by simp)
+
+/-- **completeness of the grammar** (token level): every normal-form block diagram — items are events, break,
+detach, loops over a sequence and forks of at least one sequence branch, nested to any depth — is recovered by the
+block parser from its token stream between `@startuml / partition / group` and `end group / } / @enduml`.  With
+`parse_ok_core` (soundness) this makes the parser a decision procedure for "is a block diagram": a rejection is
+never the parser's fault.  (Lines to tokens, `tokenize`, is string processing and is not covered.) -/
+theorem grammar_complete (body : List Blk) (h : nfItems body = true) :
+    parseToks (renderFile body) = .ok (.seq body) := parse_render body h
+
+/-- non-vacuity: a loop ending in a fork, with an empty branch and a break, is normal form and round-trips -/
+example :
+    let body : List Blk := [.ev "A", .loop (.seq [.ev "B", .fork .xor [.seq [.ev "C", .brk], .seq []],
+      .fork .and [.seq [.ev "D"], .seq [.ev "E", .detach]]])]
+    nfItems body = true ∧ (parseToks (renderFile body)).toOption.isSome = true := by decide +kernel
 
 /-- non-vacuity: a nested text is accepted; the same text with the fork closed by `repeat while`
 (what the learner emits in class KF-B) and one with a `case` inside a `fork` are rejected -/
